@@ -406,6 +406,168 @@ def gen_jskeys_triples(r, n):
         out.append(('jskeys-triple', base, one, two))
     return out
 
+# ---- conflicts the merger answers with an action that is COMPUTED FROM THE BASE VALUE (clear: replace by the cleared
+# value of the base value's type; take_max: the largest of base / local / remote), with base values of every JSON type.
+# The strategies table of merging/notebooks.py names such actions for /cells/*/execution_count and
+# /cells/*/outputs/*/execution_count (clear, when transients are ignored: the default, also under mergetool),
+# /nbformat_minor (take-max) and /cells/*/id (remove: not resolved by the merger, the conflict stays open).
+BV_KINDS = ('null', 'int', 'null', 'zero', 'str', 'null', 'float', 'list', 'bool', 'null', 'dict', 'text', 'int', 'emptystr',
+            'emptylist', 'emptydict', 'false')
+BV_DICT = {'a': None, 'b': 1, 'c': 0.5, 'd': True, 'e': 'x', 'f': [1, 'y'], 'g': {'h': 1}, 'i': '', 'j': [], 'k': {}, 'l': False, 'm': 'p\nq\n'}
+
+BV_FRESH = ['omega', 'sigma = 3', 'zeta()', 'theta', 'kappa.k', 'lambda_ = 0']
+
+def _bv_value(r, kind):
+    if kind == 'null': return None
+    if kind == 'int': return r.choice([1, 2, 3, 7, 12, 41, 60, -1])
+    if kind == 'zero': return 0
+    if kind == 'float': return r.choice([0.5, 2.5, -1.25])
+    if kind == 'bool': return True
+    if kind == 'false': return False
+    if kind == 'emptystr': return ''
+    if kind == 'str': return r.choice(['7', 'In [7]', '*', 'null', ' '])
+    if kind == 'text': return ''.join(w + '\n' for w in r.sample(genjson.WORDS[:14], r.choice([2, 3, 4])))
+    if kind == 'emptylist': return []
+    if kind == 'list': return copy.deepcopy(r.choice([[1], [1, 2, 3], [None], ['a', 'b'], [[1], {'a': 1}], [0, None, 'x', 1.5, True]]))
+    if kind == 'emptydict': return {}
+    ks = r.sample(sorted(BV_DICT), r.choice([1, 2, 3, 5, len(BV_DICT)]))
+    return {k: copy.deepcopy(BV_DICT[k]) for k in ks}
+
+def _bv_other(r, avoid, kinds=None):
+    """a value (of any JSON type, mostly a plain execution count) different from all of avoid"""
+    seen = {canon(x) for x in avoid}
+    for _ in range(50):
+        k = r.choice(kinds or ('int', 'int', 'int', 'int', 'int', 'null', 'zero', 'str', 'float', 'bool', 'list', 'dict', 'emptystr', 'emptylist', 'emptydict'))
+        v = _bv_value(r, k)
+        if canon(v) not in seen: return v
+    return 1000 + r.randint(0, 99)
+
+def _bv_similar(r, v, avoid=(), at=None):
+    """a changed container / multi-line string that stays similar to v (the differ answers with op patch); at: the member
+    (dict key / list index / line number) to change, so that two sides can be made to touch the SAME member"""
+    seen = {canon(x) for x in avoid}
+    for _ in range(20):
+        w = copy.deepcopy(v)
+        if isinstance(w, dict) and w:
+            ks = [at] if at in w else r.sample(sorted(w), r.choice([1, 1, 2, len(w)]) if len(w) > 1 else 1)
+            for k in ks: w[k] = _bv_other(r, [w[k]])
+        elif isinstance(w, dict): w['n'] = _bv_other(r, [])
+        elif isinstance(w, list):
+            if w and (at is not None or r.random() < 0.6):
+                i = at if at is not None and at < len(w) else r.randrange(len(w)); w[i] = _bv_other(r, [w[i]], kinds=('int', 'null', 'str', 'float'))
+            else: w.insert(r.randint(0, len(w)), r.choice([9, 'new', None]))
+        elif isinstance(w, str) and '\n' in w:
+            lines = w.splitlines(True); i = at if at is not None and at < len(lines) else r.randrange(len(lines))
+            c = r.random()
+            if c < 0.6: lines[i] = _inline_edit(r, lines[i])
+            elif c < 0.8: lines[i] = r.choice(BV_FRESH) + '\n'
+            else: lines.insert(i, 'inserted line\n')
+            w = ''.join(lines)
+        else: return _bv_other(r, [v] + list(avoid))
+        if canon(w) not in seen and canon(w) != canon(v): return w
+    return _bv_other(r, [v] + list(avoid))
+
+def _bv_member(r, v):
+    """a member of a container / a line of a multi-line string, or None"""
+    if isinstance(v, dict) and v: return r.choice(sorted(v))
+    if isinstance(v, list) and v: return r.randrange(len(v))
+    if isinstance(v, str) and '\n' in v: return r.randrange(len(v.splitlines(True)))
+    return None
+
+BV_SITES = ('cell', 'output', 'both')
+BV_CONTAINERS = ('text', 'dict', 'list')
+
+def gen_basevalue_actions(r, n):
+    """three-way merges that make decide_notebook_merge emit decisions whose action is computed from the base value,
+    where that base value is of every JSON type in turn: null (a cell never executed in base), 0, other ints, non-integral
+    numbers, true / false, empty / one-line / multi-line strings, empty / non-empty lists and dicts.
+    Sites: the execution_count of a code cell, of an execute_result output, of both (the picture after a re-run); among
+    the controls also nbformat_minor (take_max; numbers and booleans only -- Python's own max() refuses the rest, so
+    there is no document to compare) and the cell id (strategy remove, which the merger leaves open).
+    Cases come in rounds of four:
+      0  both sides set different plain counts (replace/replace: the `clear` case), base kind taking turns, null first;
+      1  the same with side values of any JSON type;
+      2  in turn: one side keeps the type of the base value; one side changes a container / text a little while the other
+         replaces it (patch/replace); both change a container / text a little (patch/patch: the merger recurses into the
+         value and meets the strategy again on its lines / members); the same with both sides changing the SAME line / member;
+      3  in turn: the same change on both sides, a one-sided change (controls: no such action expected), nbformat_minor, id.
+    Variation besides: position and number of cells, another code cell re-run on one side, the same new output on both
+    sides, an ordinary source edit on one side, which side is local."""
+    out = []
+    for t in range(n):
+        nb = gennb.gen_notebook(r, ncells=r.choice([1, 2, 2, 3, 4]), rich=False)
+        minor = nb.get('nbformat_minor', 4)
+        code = [i for i, c in enumerate(nb['cells']) if c['cell_type'] == 'code']
+        if not code:
+            used = {c.get('id') for c in nb['cells']}
+            nb['cells'].insert(r.randint(0, len(nb['cells'])), gennb.gen_cell(r, minor, used, rich=False, kind='code'))
+            code = [i for i, c in enumerate(nb['cells']) if c['cell_type'] == 'code']
+        ci = r.choice(code)
+        rnd, leg = t // 4, t % 4
+        site = BV_SITES[(rnd + leg) % 3]
+        kind = BV_KINDS[(rnd + 5 * leg) % len(BV_KINDS)]
+        at = None
+        if leg < 2: mode = 'both-differ'
+        elif leg == 2:
+            mode = ('one-keeps-type', 'similar-vs-replace', 'similar-both', 'similar-both-same-member')[rnd % 4]
+            if mode != 'one-keeps-type': kind = BV_CONTAINERS[(rnd // 4 + rnd) % 3]
+        else:
+            mode = ('same-change', 'one-sided', 'minor', 'id')[rnd % 4]
+            if mode == 'id' and 'id' not in nb['cells'][ci]: mode = 'one-sided'
+            if mode in ('minor', 'id'): site = mode
+        if site == 'minor': kind = ('int', 'zero', 'float', 'bool', 'false', 'int')[rnd // 4 % 6]
+        bv = _bv_value(r, kind) if site != 'id' else nb['cells'][ci]['id']
+        container = isinstance(bv, (dict, list)) or (isinstance(bv, str) and '\n' in bv)
+        # the two sides' values
+        if site == 'minor':
+            lo = int(bv)                           # both sides raise it / one raises, one lowers / both lower (base stays the largest)
+            v1, v2 = r.choice([(lo + 1, lo + 2), (lo + 2, lo + 1), (lo + 3, lo + 1), (lo + 1, max(0, lo - 1)), (max(0, lo - 2), max(1, lo - 1) if lo > 1 else lo + 1)])
+            if canon(v1) == canon(bv): v1 = lo + 4
+            if canon(v2) in (canon(bv), canon(v1)): v2 = lo + 5
+        elif site == 'id': v1 = bv + '-l'; v2 = bv + '-r'
+        elif mode == 'both-differ':
+            ks = ('int',) if leg == 0 else None
+            v1 = _bv_other(r, [bv], kinds=ks); v2 = _bv_other(r, [bv, v1], kinds=ks if rnd % 3 else ('int',))
+        elif mode == 'one-keeps-type':
+            same = {'int': ('int',), 'zero': ('int',), 'float': ('float',), 'str': ('str',), 'emptystr': ('str',), 'bool': ('false',), 'false': ('bool',)}.get(kind, ('int',))
+            v1 = _bv_similar(r, bv) if container else _bv_other(r, [bv], kinds=same)
+            v2 = _bv_other(r, [bv, v1])
+        elif mode == 'similar-vs-replace': v1 = _bv_similar(r, bv); v2 = _bv_other(r, [bv, v1])
+        elif mode == 'similar-both': v1 = _bv_similar(r, bv); v2 = _bv_similar(r, bv, [v1])
+        elif mode == 'similar-both-same-member':
+            at = _bv_member(r, bv)
+            if isinstance(bv, str) and rnd % 8 < 4:           # both sides put another whole line there
+                lines = bv.splitlines(True); w1, w2 = r.sample(BV_FRESH, 2)
+                v1 = ''.join(lines[:at] + [w1 + '\n'] + lines[at + 1:]); v2 = ''.join(lines[:at] + [w2 + ' ' + w1 + '\n'] + lines[at + 1:])
+            else: v1 = _bv_similar(r, bv, at=at); v2 = _bv_similar(r, bv, [v1], at=at)
+        elif mode == 'same-change': v1 = _bv_other(r, [bv]); v2 = copy.deepcopy(v1)
+        else: v1 = _bv_other(r, [bv]); v2 = copy.deepcopy(bv)
+        base = copy.deepcopy(nb); one = copy.deepcopy(nb); two = copy.deepcopy(nb)
+        if site in ('output', 'both') and not any(o['output_type'] == 'execute_result' for o in nb['cells'][ci]['outputs']):
+            o = gennb.gen_output(r, None, rich=False, kind='execute_result')
+            for doc in (base, one, two): doc['cells'][ci]['outputs'].append(copy.deepcopy(o))
+        for doc, v in ((base, bv), (one, v1), (two, v2)):
+            c = doc['cells'][ci]
+            if site == 'minor': doc['nbformat_minor'] = copy.deepcopy(v)
+            elif site == 'id': c['id'] = v
+            if site in ('cell', 'both'): c['execution_count'] = copy.deepcopy(v)
+            if site in ('output', 'both'):
+                for o in c['outputs']:
+                    if o['output_type'] == 'execute_result': o['execution_count'] = copy.deepcopy(v)
+        c = r.random()
+        if c < 0.2 and site != 'output':          # both branches got the same new output
+            o = gennb.gen_output(r, None, rich=False, kind='stream')
+            for doc in (one, two): doc['cells'][ci]['outputs'].append(copy.deepcopy(o))
+        elif c < 0.4:                             # an ordinary edit next to it
+            cc = one['cells'][r.randrange(len(one['cells']))]
+            cc['source'] = cc['source'] + ('' if cc['source'].endswith('\n') or not cc['source'] else '\n') + 'z = 0\n'
+        elif c < 0.55 and len(code) > 1:          # another code cell is re-run on one side
+            cj = r.choice([i for i in code if i != ci])
+            two['cells'][cj]['execution_count'] = (two['cells'][cj]['execution_count'] or 0) + r.choice([1, 5])
+        if r.random() < 0.5: one, two = two, one
+        out.append(('basevalue-action', base, one, two))
+    return out
+
 def gen_cases(chk, tier):
     r = chk.rng
     k = 1 if tier == 'quick' else 6
@@ -481,6 +643,7 @@ def gen_cases(chk, tier):
     triples += [(s, norm_numbers(b), norm_numbers(l), norm_numbers(rm)) for s, b, l, rm in gen_inline_vs_lines(r, 60 * k)]
     pairs += [(s, kd, norm_numbers(a), norm_numbers(b)) for s, kd, a, b in gen_jskeys_pairs(r, 80 * k)]
     triples += [(s, norm_numbers(b), norm_numbers(l), norm_numbers(rm)) for s, b, l, rm in gen_jskeys_triples(r, 30 * k)]
+    triples += [(s, norm_numbers(b), norm_numbers(l), norm_numbers(rm)) for s, b, l, rm in gen_basevalue_actions(r, 48 * k)]
     return pairs, triples, splits
 
 # ------------------------------------------------------------------ judging
@@ -724,7 +887,7 @@ def run(tier, seed):
     chk.cov.update({
         'evaluations': len(pcases) + len(mcases) + len(splits),
         'distinct_nontrivial': len(nontriv),
-        'rule': 'each (base, diff) from nbdime.diff / diff_notebooks and each (base, decisions) from decide_notebook_merge(mergetool) over the generated space is one program run through Python and TypeScript; strings over {a,b,LF,CR}+each of VT,FF,FS,GS,RS,NEL,LS,PS, multi-line text, astral text, JSON documents, notebooks, notebook triples incl. nbformat_minor conflicts, in-line edit on one side vs whole-line changes on the other in one source (inline-vs-lines), dict keys named like members of Object.prototype / other JavaScript-significant names (constructor, toString, valueOf, hasOwnProperty, length, 0, op, ...) added / removed / replaced / patched / kept in JSON objects (jskeys-json), in notebook, cell and output metadata (jskeys-nb) and on one or both sides of a merge (jskeys-triple); about a third of the jskeys cases are about the key __proto__ (added, removed, replaced, patched, present and untouched while another key changes, nested): these are compared implementation against implementation and, having no counterpart in the prototype-free Gallina model of the TypeScript patcher, are left out of the ts_patch model comparison (select_t1 / wf_for_ts_model); a disagreement is attributed to that key (signatures proto-key:*) only if the key occurs in the case AND both implementations agree on the same case with the key renamed; non-trivial = non-empty diff / non-empty decision list, distinct by canonical JSON of the pair; split strings are counted in evaluations only',
+        'rule': 'each (base, diff) from nbdime.diff / diff_notebooks and each (base, decisions) from decide_notebook_merge(mergetool) over the generated space is one program run through Python and TypeScript; strings over {a,b,LF,CR}+each of VT,FF,FS,GS,RS,NEL,LS,PS, multi-line text, astral text, JSON documents, notebooks, notebook triples incl. nbformat_minor conflicts, in-line edit on one side vs whole-line changes on the other in one source (inline-vs-lines), dict keys named like members of Object.prototype / other JavaScript-significant names (constructor, toString, valueOf, hasOwnProperty, length, 0, op, ...) added / removed / replaced / patched / kept in JSON objects (jskeys-json), in notebook, cell and output metadata (jskeys-nb) and on one or both sides of a merge (jskeys-triple); conflicts the merger answers with an action computed from the BASE value (clear, take_max) where that base value is of every JSON type in turn -- null (never executed in base), 0, ints, non-integral numbers, booleans, empty / one-line / multi-line strings, empty / non-empty lists and dicts -- at the execution_count of a code cell, of an execute_result output, of both, at nbformat_minor (numbers and booleans) and at the cell id, with both sides setting different plain counts / values of any type, one side keeping the type, patch vs replace and patch vs patch on containers and text (also on the same line / member), and same-change / one-sided controls (basevalue-action; apart from null and int counts these notebooks are outside the nbformat schema, which neither merger nor web tool enforces); about a third of the jskeys cases are about the key __proto__ (added, removed, replaced, patched, present and untouched while another key changes, nested): these are compared implementation against implementation and, having no counterpart in the prototype-free Gallina model of the TypeScript patcher, are left out of the ts_patch model comparison (select_t1 / wf_for_ts_model); a disagreement is attributed to that key (signatures proto-key:*) only if the key occurs in the case AND both implementations agree on the same case with the key renamed; non-trivial = non-empty diff / non-empty decision list, distinct by canonical JSON of the pair; split strings are counted in evaluations only',
         'input_distribution': hist,
         'traces_validated_against_impl': t1, 'model_impl_mismatches': mism,
         'ts_executed': not static_only, 'node': node or 'absent',
@@ -837,8 +1000,24 @@ def decision_signature(base, d, py, ts):
         if isinstance(v, str) and path and isinstance(path[0], int) and has_exotic(v) \
            and path[0] < len(v.splitlines(True)) and path[0] >= len(js_split(v)):
             return 'ts-apply-throws:decision-path-names-line-of-string-js-splits-differently'
+    if 'err' in ts and ts['err'] == 'TypeError' and d.get('action') == 'clear' and "Can only use `'clear'` action on objects/dicts" in ts.get('msg', '') \
+       and _path_reaches_string(base, d.get('common_path', [])):
+        # the merger met the strategy `clear` again INSIDE a string value (both sides changed the same lines of a
+        # multi-line string stored where that strategy applies) and put the action on the string / on one of its lines
+        return 'ts-apply-throws:clear-action-on-conflict-inside-string'
     if 'err' in ts: return 'ts-apply-throws:' + ts['err']
     return 'ts-apply-differs:other'
+
+def _path_reaches_string(base, path):
+    """the path ends at a string value of base or goes on into one (a line number follows)"""
+    v = base
+    try:
+        for k in path:
+            if isinstance(v, str): return True
+            v = v[k]
+    except Exception:
+        return False
+    return isinstance(v, str)
 
 def resolved_pair(base, d):
     """(value, diff) that a plain local/remote/custom/... decision applies, or None"""
@@ -900,9 +1079,12 @@ def report_merge_failures(chk, mcases, mfail, env):
     for n, (i, j, d, py, ts) in enumerate(single):
         if n in reduced: continue
         sig = decision_signature(mcases[i]['base'], d, py, ts)
-        chk.violation(sig, {'kind': 'apply', 'base': mcases[i]['base'], 'decisions': [d]},
-                      {'python': py.get('err', '<merged notebook>'), 'ts': ts.get('err', '<different document>'),
-                       'ts_msg': ts.get('msg'), 'found_in': mcases[i]['src'], 'decision_index': j})
+        det = {'python': py.get('err', '<merged notebook>'), 'ts': ts.get('err', '<different document>'),
+               'ts_msg': ts.get('msg'), 'found_in': mcases[i]['src'], 'decision_index': j}
+        if 'ok' in py and 'ok' in ts:
+            tgt = differing_strings(py['ok'], ts['ok'])
+            if tgt: det['first_difference'] = tgt
+        chk.violation(sig, {'kind': 'apply', 'base': mcases[i]['base'], 'decisions': [d]}, det)
     # no single decision disagrees: look for the smallest PAIR of decisions (in the order sent) that does
     rest = [i for i in mfail if i not in explained]
     pr = []
